@@ -328,3 +328,25 @@ Definition followup (c : config) (s : lstate) (cancelled_before : bool) (cancel_
         ({| r_peers := r_peers r; r_states := r_states r; r_closest := r_closest r;
             r_completed := if interrupted then false else r_completed r |}, fp)
   end.
+
+(* ---- honest networks (the hypothesis of C02) ------------------------------------------ *)
+Fixpoint ins_dist (key x : N) (l : list N) : list N :=
+  match l with
+  | [] => [x]
+  | y :: l' => if N.leb (dist key x) (dist key y) then x :: l else y :: ins_dist key x l'
+  end.
+Definition sort_dist (key : N) (l : list N) : list N := fold_right (ins_dist key) [] l.
+
+(* an honest peer answers with the K nearest peers it knows *)
+Definition honest_answer (K : nat) (key : id) (known : list id) : list rpeer :=
+  map (fun p => {| rid := p; rpass := true; rgroups := [] |}) (firstn K (sort_dist key known)).
+Definition honest_env (c : config) (knows : id -> list id) : id -> outcome :=
+  fun p => OAnswer (honest_answer (cK c) (cKey c) (knows p)).
+
+(* the members of U in the same k-bucket of p as x *)
+Definition bucket_of (U : list id) (p x : id) : list id :=
+  filter (fun y => negb (N.eqb y p) && N.eqb (N.log2 (N.lxor p y)) (N.log2 (N.lxor p x))) U.
+
+(* lookup.go: the network-size estimator and the bucket refresh stamp are only
+   touched when the context is alive and the lookup completed *)
+Definition gcp_side_effects (ctx_err : bool) (r : lresult) : bool := negb ctx_err && r_completed r.
